@@ -102,7 +102,7 @@ HOST_CTYPE = "ty * bytes * Z * val * Z * Z * bytes * N"
 # the Go allocation (TotalAlloc delta around Decode) must be covered by the model's accounting: validates `al` from below
 HOST_AGREE = """  let '(t, bs, cls, dv, csm, re, bs2, goal) := c in
   let r := decode reg (fuel_for bs) t bs in
-  (N.leb goal (3 * res_alloc r + 256 * N.of_nat (length bs) + 65536)) &&
+  (N.leb goal (3 * res_alloc r + 256 * N.of_nat (length bs) + 524288)) &&
   match r with
   | Ok v rest _ => (cls =? 0) && val_eqb v dv && (blen bs - blen rest =? csm) &&
       (match encode reg t v with
